@@ -23,7 +23,7 @@ func init() {
 			"backward conversion at the same zooms must return the original IDs and at other zooms the C03 reference; spatial-ID variants on h==v lists. " +
 			"Directed: all 5460 tiles of zooms 1..6 (keys pairwise distinct, fill [0,4^z), decode to the tile). Non-trivial = some x or y non-zero; distinct by (list, zooms).",
 		Assume: []string{"reference: q = sum xbit_i<<2i | ybit_i<<(2i+1)", "C12 reference (exact rational cover) for the altitudekey form"},
-		N:      func(t string) int64 { return c11Directed + tierN(60_000, 2_500_000)(t) },
+		N:      func(t string) int64 { return c11Directed + tierN(100_000, 2_500_000)(t) },
 		Floor:  tierN(1000, 10000),
 		Run:    runC11,
 		Exhaustive: func(string) []string {
